@@ -10,7 +10,7 @@ row counts, initial values, NULL replacement.
 import json
 import random
 
-from .. import dbrig, dj, sigs
+from .. import dbrig, dj, optrig, sigs
 
 F_PARAMS = 'F3'
 F_EMBED_OVERWRITES = 'F57'
@@ -305,6 +305,12 @@ def family():
                                          'initial': initial, 'attrs': [['null', 'true'], ['related_model', '"vapp.Alpha"']] +
                                          ([['unique', 'false']] if ftype == 'OneToOneField' else [])}
     cases = [
+        # a name that is freed by a rename and used again: each column keeps its own initial value
+        [cf('code', '"LEGACY"', ('null', 'false')),
+         {'t': 'RenameField', 'model': 'Alpha', 'old': 'code', 'new': 'old_code', 'db_column': None, 'db_table': None},
+         {'t': 'AddField', 'model': 'Alpha', 'field': 'code', 'ftype': 'CharField', 'initial': None,
+          'attrs': [['max_length', '10'], ['null', 'true']]},
+         cf('code', '"NEW"', ('null', 'false'))],
         # relation columns with a declared initial value (rows 1..6 exist)
         [rel('boss', 'ForeignKey', '1')],
         [rel('boss', 'ForeignKey', '2'), add('extra', '7'), cf('qty', '0', ('null', 'false'))],
@@ -505,8 +511,9 @@ def run(ctx):
             if not aligned and multi_param(rep['mutations']):
                 ctx.fail(F_PARAMS, 'row data is wrong after a rebuild with several parameterised initials: %s'
                          % pb[0], rep)
-            elif name_reuse(rep['mutations']) or touches_renamed_model(rep['mutations']) or \
-                    initial_rollup(rep['mutations']):
+            elif (name_reuse(rep['mutations']) or touches_renamed_model(rep['mutations']) or
+                  initial_rollup(rep['mutations'])) and \
+                    optrig.model_explains_optimiser(ctx, rep['spec'], rep['mutations']):
                 ctx.count('general:batched_only_attributed_to_C03')      # optimiser findings F20/F21/F24
             else:
                 ctx.fail(None, 'row data is not preserved (batched run): %s' % pb[0], rep)
